@@ -76,6 +76,59 @@ def render_use_tree(tr):
     return "{" + ", ".join(render_use_tree(k) for k in tr["kids"]) + "}"
 
 
+def ty_args(t):
+    """components of a type code (see spec/Registration.tla: TyKind, TyArgs)"""
+    if t < 100:
+        return 0, []
+    if t < 1000:
+        k, a = t // 100, [(t // 10) % 10, t % 10]
+    else:
+        k, a = t // 1000000, [(t // 1000) % 1000, t % 1000]
+    return k, (a[:1] if k <= 2 else a)
+
+
+def _ty(t, leaf, fmt):
+    k, a = ty_args(t)
+    if k == 0:
+        return leaf[t]
+    return fmt[k] % tuple(_ty(x, leaf, fmt) for x in a)
+
+
+def rust_ty(t):
+    return _ty(t, {0: "i32", 1: "Val<TA>", 5: "u32", 6: "bool", 7: "RotoString"},
+               {1: "Option<%s>", 2: "List<%s>", 3: "Result<%s, %s>", 4: "Verdict<%s, %s>"})
+
+
+def roto_ty(t):
+    return _ty(t, {0: "i32", 1: "T", 2: "U", 3: "W", 4: "X", 5: "u32", 6: "bool", 7: "String"},
+               {1: "Option[%s]", 2: "List[%s]", 3: "Result[%s, %s]", 4: "Verdict[%s, %s]"})
+
+
+def sig_codes_of(cases):
+    """type codes >= 5 that occur in the signatures of the cases"""
+    out = set()
+
+    def walk(items):
+        for it in items:
+            for t in list(it["ps"]) + [it["r"], it["ty"]]:
+                if t >= 5:
+                    out.add(t)
+            walk(it["items"])
+    for c in cases:
+        for a in c["adds"]:
+            walk(a["lib"])
+    return out
+
+
+def table_sig_codes():
+    import re
+    p = os.path.join(vlib.VERIF, "harness", "src", "tables", "c18_sigs.rs")
+    if not os.path.exists(p):
+        return set()
+    m = re.search(r"SIG_CODES: &\[i64\] = &\[([^\]]*)\]", open(p).read())
+    return set(int(x) for x in m.group(1).split(",") if x.strip()) if m else set()
+
+
 def table_use_trees():
     """the use trees compiled into the harness (harness/src/tables/c18_usetrees.rs)"""
     import re
